@@ -50,6 +50,7 @@ type G struct {
 	prio     int64
 	daemon   bool
 	sim      *Sim
+	settle   bool // waiting in Settle: runs only when nobody else can
 	starved  bool // strategy "starve": delayed until nobody else can run
 	stalls   int  // clock stalls spent while starved at the current site
 }
@@ -129,6 +130,8 @@ type Sim struct {
 	starveMod   uint64 // strategy "starve": sites whose hash is starveSel modulo starveMod delay their goroutine
 	starveSel   uint64
 	shortStall  bool
+	calm        bool // no more scheduler-made faults (stalls, delayed goroutines)
+	lastParked  int  // size of the parked set at the last release
 	jitter      atomic.Int64
 	starveOrder int
 	starveFocus []string
@@ -212,7 +215,7 @@ func (g *G) park(s *Sim, site string, st gstate) {
 	}
 	g.site = site
 	s.siteHits.add(site, 1)
-	if s.starveMod != 0 && st != gLockWait {
+	if s.starveMod != 0 && st != gLockWait && !s.calm {
 		// FNV-1a of the site name
 		h := uint64(14695981039346656037)
 		for i := 0; i < len(site); i++ {
@@ -488,6 +491,49 @@ func OnStep(f func()) {
 		s.nOnStep++
 	}
 	s.ulk()
+}
+
+// Calm ends the scheduler-made faults for the rest of the run: no more clock stalls while
+// goroutines are runnable, no more delayed goroutines. A harness calls it when its workload is
+// over, before the quiet period that precedes its final checks ("once faults stop ...").
+//
+//go:norace
+func Calm() {
+	s := current()
+	if s == nil {
+		return
+	}
+	s.lk()
+	s.calm = true
+	s.ulk()
+}
+
+// Settle returns when no other simulated goroutine is runnable (all are blocked or done): the
+// system has digested everything that was in flight at this instant.
+//
+//go:norace
+func Settle() {
+	s := current()
+	if s == nil {
+		return
+	}
+	g := s.lookup()
+	if g == nil {
+		return
+	}
+	for i := 0; i < 1000000; i++ {
+		s.lk()
+		g.settle = true
+		s.ulk()
+		Yield("settle")
+		s.lk()
+		g.settle = false
+		others := s.lastParked - 1
+		s.ulk()
+		if others <= 0 {
+			return
+		}
+	}
 }
 
 // Jitter is inserted by goinst (option timer_jitter) around the duration of every timer and
@@ -1136,7 +1182,8 @@ func (s *Sim) loop() {
 		// choose: index into parked, or len(parked) = stall
 		n := len(parked)
 		opts := n
-		allowStall := s.cfg.StallProb > 0 && !mainDone
+		allowStall := s.cfg.StallProb > 0 && !mainDone && !s.calm
+		s.lastParked = len(parked)
 		if allowStall {
 			opts = n + 1
 		}
@@ -1206,6 +1253,24 @@ func (s *Sim) idle(d time.Duration) {
 //go:norace
 func (s *Sim) pick(parked []*G, allowStall bool) int {
 	n := len(parked)
+	ns := 0
+	for _, g := range parked {
+		if !g.settle {
+			ns++
+		}
+	}
+	if ns > 0 && ns < n {
+		// somebody waits in Settle: everybody else first
+		k := s.rng.Intn(ns)
+		for i, g := range parked {
+			if !g.settle {
+				if k == 0 {
+					return i
+				}
+				k--
+			}
+		}
+	}
 	if allowStall && s.rng.Float64() < s.cfg.StallProb {
 		return n
 	}
